@@ -48,9 +48,12 @@ SecAuditLog /dev/null
 SecAuditLogParts ABHKZ
 SecAction "id:4,phase:1,pass,nolog,ctl:ruleRemoveTargetById=3;ARGS:a4"
 SecRule ARGS:a "@rx ^x3" "id:7,phase:1,pass,nolog,ctl:auditLogParts=-B"
-SecRule ARGS "@rx ^x(\d+)" "id:1,phase:2,pass,log,capture,t:lowercase,setvar:tx.n=+%{tx.1}"
-SecRule ARGS "@pm foo bar" "id:2,phase:2,pass,log,t:lowercase,t:trim"
-SecRule ARGS:/^a/|!ARGS:a1|!ARGS:a2|!ARGS:a3 "@rx y" "id:3,phase:2,pass,log"
+SecAction "id:8,phase:1,pass,nolog,ctl:ruleRemoveTargetByTag=tg;ARGS:a5,ctl:ruleRemoveTargetByMsg=mg;ARGS:a6,ctl:ruleRemoveByTag=tgone,ctl:ruleRemoveByMsg=mgone"
+SecRule ARGS "@rx ^x(\d+)" "id:1,phase:2,pass,log,capture,t:lowercase,setvar:tx.n=+%{tx.1},msg:'mg'"
+SecRule ARGS "@pm foo bar" "id:2,phase:2,pass,log,t:lowercase,t:trim,tag:'tg'"
+SecRule ARGS:/^a/|!ARGS:a1|!ARGS:a2|!ARGS:a3 "@rx y" "id:3,phase:2,pass,log,tag:'tg',msg:'mg'"
+SecRule ARGS "@streq never" "id:9,phase:2,deny,status:500,log,tag:'tgone'"
+SecRule ARGS "@rx ." "id:10,phase:2,deny,status:500,log,tag:'tgone',msg:'mgone'"
 SecRule ARGS:b "@streq 1" "id:5,phase:2,pass,log,chain"
   SecRule ARGS:c "@streq 2" "setvar:tx.chain=1"
 SecRule TX:n "@gt 5" "id:6,phase:2,deny,status:403,log"
